@@ -243,7 +243,10 @@ class WriteSeam:
         entry = {"path": name, "abspath": path, "n": 0, "chunks": 0, "closed": False,
                  "fault": None}
         fault = None
-        if self._armed and name.endswith(self.fault["target"]):
+        # the target is the cache file OR a temporary file it is written through
+        # (g.pgc.tmp, g.pgc.1234.tmp ...): an interrupted atomic write tears the
+        # temporary file
+        if self._armed and self.fault["target"] in os.path.basename(name):
             self._armed = False
             fault = self.fault
             if fault["kind"] == "eperm":
